@@ -231,6 +231,10 @@ type Options struct {
 
 // Coordinate runs the plan over worker processes and returns the process exit code.
 func Coordinate(opt Options, plan *Plan, store *kf.Store) int {
+	// maintenance: a shorter dispatch budget for a spot run of a thorough tier (never set by the registered commands)
+	if v, err := strconv.Atoi(os.Getenv("VF_BUDGET_S")); err == nil && v > 0 && plan.Budget > 0 {
+		plan.Budget = time.Duration(v) * time.Second
+	}
 	start := time.Now()
 	if plan.Prepare != nil {
 		if err := plan.Prepare(&opt); err != nil {
